@@ -213,6 +213,7 @@ def run(ctx):
     run_wallets(ctx, nets)
     run_multisig_wallets(ctx, nets)
     run_db_encryption(ctx, nets)
+    run_db_column_logic(ctx)
     ctx.exhaustive = False
     ctx.assumptions += ['the object walk enumerates what Python exposes (__dict__ of bitcoinlib objects, containers, pickle bytes); it is an '
                         'enumeration, not a proof about the interpreter',
@@ -432,6 +433,138 @@ print(json.dumps(out))
                           {'op': 'db-scan ' + label, 'encodings_found': sorted(set(found))[:6]})
         if label == 'plain':
             ctx.extra['plaintext_hits_without_encryption_key'] = len(found)
+
+
+DBC_CHILD = r"""
+import os, sys, json, logging
+sys.path.insert(0, %r)
+class H(logging.Handler):
+    def __init__(self):
+        logging.Handler.__init__(self); self.msgs = []
+    def emit(self, rec):
+        self.msgs.append(rec.getMessage())
+h = H()
+logging.getLogger('bitcoinlib.db').addHandler(h)
+import bitcoinlib.db as db
+warned = any('encryption is enabled' in m for m in h.msgs)
+cols = {'bin': db.EncryptedBinary(), 'str': db.EncryptedString()}
+def unval(kind, hx):
+    return None if kind == 'none' else (bytes.fromhex(hx) if kind == 'bytes' else bytes.fromhex(hx).decode('utf8'))
+def val(x):
+    if x is None: return ['none', '']
+    if isinstance(x, (bytes, bytearray)): return ['bytes', bytes(x).hex()]
+    if isinstance(x, str): return ['str', x.encode('utf8').hex()]
+    return ['other', repr(x)]
+out = []
+for op, col, kind, hx in json.load(sys.stdin):
+    v = unval(kind, hx)
+    try:
+        r = cols[col].process_bind_param(v, None) if op == 'bind' else cols[col].process_result_value(v, None)
+        out.append(['val'] + val(r))
+    except ValueError as e:
+        out.append(['raises' if 'Data is encrypted' in str(e) else 'ciphererr', type(e).__name__, str(e)[:60]])
+    except Exception as e:
+        out.append(['ciphererr', type(e).__name__, str(e)[:60]])
+print(json.dumps({'warned': warned, 'out': out}))
+"""
+
+
+def run_db_column_logic(ctx):
+    """the decision logic of the encrypted column types (db.py) against the model (DbCrypt.lean): per configuration (config.ini
+    switch, DB_FIELD_ENCRYPTION_KEY, DB_FIELD_ENCRYPTION_PASSWORD) a subprocess imports the library with that environment and
+    binds / reads back values; the parent classifies what was handed to the database by decrypting it with the candidate keys"""
+    from bitcoinlib.encoding import aes_encrypt, aes_decrypt
+    import bitcoinlib.db as db
+    rng = ctx.rng
+    # data tie: every column that holds private key material has an encrypted type
+    for tname, table in db.Base.metadata.tables.items():
+        for c in table.columns:
+            if c.name in ('private', 'wif'):
+                ctx.evals += 1
+                want = db.EncryptedBinary if c.name == 'private' else db.EncryptedString
+                if not isinstance(c.type, want):
+                    ctx.violation('a database column for private key material is not of an encrypted type',
+                                  {'op': 'column-type %s.%s' % (tname, c.name), 'type': type(c.type).__name__})
+    rk = lambda: bytes(rng.randrange(256) for _ in range(32)).hex()
+    rpw = lambda: ''.join(rng.choice('abcdefghijkmnpqrstuvwxyzABC0123456789 !é') for _ in range(rng.randint(1, 20)))
+    cfgs = [(0, '11' * 32, None), (0, None, 'correct horse'), (0, '22' * 32, 'battery staple'), (0, None, None), (1, None, None),
+            (0, '', rpw()), (1, rk(), ''), (1, '', ''), (1, rk(), rpw()), (0, None, rpw())]
+    for _ in range(12 if ctx.thorough else 2):
+        cfgs.append((rng.randrange(2), rng.choice([None, '', rk(), rk()]), rng.choice([None, '', rpw(), rpw()])))
+    cases = []
+    for en, key, pw in cfgs:
+        dd = fresh_datadir()
+        if en:
+            with open(os.path.join(dd, 'config.ini'), 'w') as f:
+                f.write('[common]\ndatabase_encryption_enabled=True\n')
+        env = dict(os.environ, BCL_DATA_DIR=dd)
+        env.pop('DB_FIELD_ENCRYPTION_KEY', None)
+        env.pop('DB_FIELD_ENCRYPTION_PASSWORD', None)
+        if key is not None:
+            env['DB_FIELD_ENCRYPTION_KEY'] = key
+        if pw is not None:
+            env['DB_FIELD_ENCRYPTION_PASSWORD'] = pw
+        cand = []
+        if key:
+            cand.append(bytes.fromhex(key))
+        if pw:
+            cand.append(sha256d(pw.encode('utf8')))
+        other = bytes(rng.randrange(256) for _ in range(32))
+        vals = [('none', b''), ('bytes', bytes(rng.randrange(256) for _ in range(32))), ('bytes', b''), ('bytes', bytes(rng.randrange(256) for _ in range(rng.randint(1, 80)))),
+                ('str', ''.join(rng.choice(B58) for _ in range(52)).encode()), ('str', 'xprv9s21ZrQH143K3é'.encode('utf8')), ('str', b''),
+                ('str', ''.join(rng.choice(B58) for _ in range(rng.randint(1, 111))).encode())]
+        ops, meta = [], []
+        for col in ('bin', 'str'):
+            for kind, payload in vals:
+                ops.append(['bind', col, kind, payload.hex()])
+                meta.append(('bind', col, 'plain', kind, payload))
+                writers = ['plain'] + list(cand) + [other]
+                for wk in writers:
+                    if wk == 'plain':
+                        ops.append(['result', col, kind, payload.hex()])
+                    elif kind == 'none' or (col == 'str' and kind == 'bytes'):
+                        continue        # arbitrary bytes are not text: the text column decodes UTF-8 after decrypting
+                    else:
+                        ops.append(['result', col, 'bytes', aes_encrypt(payload, wk).hex()])
+                    meta.append(('result', col, wk, kind, payload))
+        p = subprocess.run([sys.executable, '-c', DBC_CHILD % REPO], input=json.dumps(ops), capture_output=True, text=True, env=env, timeout=300)
+        if p.returncode != 0:
+            ctx.violation('the library cannot be imported / the column types fail under a field-encryption configuration',
+                          {'op': 'dbc-config %r %r %r' % (en, key, pw), 'stderr': p.stderr[-300:]})
+            continue
+        ans = json.loads(p.stdout.strip().splitlines()[-1])
+        envs = lambda x: 'unset' if x is None else hexp(x if isinstance(x, bytes) else x.encode('utf8'))
+        keytok = 'unset' if key is None else (key or '-')
+        pwtok = envs(pw)
+        for (op, col, wk, kind, payload), r, sent in zip(meta, ans['out'], ops):
+            if op == 'bind':
+                line = 'dbc_bind %d %s %s %s %s %s' % (en, keytok, pwtok, col, kind, hexp(payload))
+                if r[0] != 'val':
+                    py = r[0]
+                else:
+                    rk_, rh = r[1], r[2]
+                    same = (rk_ == kind and bytes.fromhex(rh) == payload) if kind != 'none' else rk_ == 'none'
+                    if same:
+                        py = 'plain ' + ('none' if kind == 'none' else '%s:%s' % (kind, hexp(payload)))
+                    else:
+                        py = 'other %s:%s' % (rk_, rh[:40])
+                        if rk_ == 'bytes':
+                            for k in cand + [other]:
+                                try:
+                                    py = 'cipher key=%s payload=%s' % (k.hex(), hexp(aes_decrypt(bytes.fromhex(rh), k)))
+                                    break
+                                except Exception:
+                                    pass
+                py += ' warns=%s' % ('true' if ans['warned'] else 'false')
+            else:
+                line = 'dbc_result %d %s %s %s %s %s %s' % (en, keytok, pwtok, col, 'plain' if wk == 'plain' else wk.hex(), kind, hexp(payload))
+                if r[0] != 'val':
+                    py = r[0]
+                else:
+                    py = 'val ' + ('stored' if r[1:3] == [sent[2], sent[3]] else ('none' if r[1] == 'none' else '%s:%s' % (r[1], hexp(bytes.fromhex(r[2])) if r[1] != 'other' else r[2])))
+            cases.append((line, py, True))
+            ctx.count('dbc:%s:%s' % (op, py.split(' ')[0] + ('' if op == 'result' else '')))
+    ctx.compare(cases, 'db-column-logic')
 
 
 def replay(ctx, obj):
